@@ -414,7 +414,7 @@ class STimer:
                 self.fired = True
                 self.function(*self.args, **self.kwargs)
 
-        self.ts = s.spawn(body, name=f"timer<{self.creator}>{len(s.timers)}")
+        self.ts = s.spawn(body, name=f"tm{len(s.timers)}[{self.creator}]")
         s.yield_point("start")
 
     def cancel(self):
